@@ -67,7 +67,6 @@ def probes(ctx):
     sc.rules = [scenario.Rule(pat=rx.cls(rx.ALL), conds=[])]
     sc.flavor = 'nr'
     p = Plan()
-    p.allow = 4
     it = p.insts[0]
     it.top = [Op('INIT'), Op('SCAN_BYTES', d=b'ab'), Op('LEX', a=100)]
     it.acts = [(1, Op('INPUT')), (1, Op('INPUT'))]
